@@ -134,7 +134,7 @@ func c19Parse(c *Ctx) {
 	// each accept copies the whole remaining payload into the hash array
 	for _, e := range succ {
 		at := b.Of(e.Results[1], e.Instr)
-		cp, _ := ana.Find("call<builtin.copy>(slice(faddr<hash>(self), 0, none), "+rest+")", at)
+		cp, _ := ana.Find("call<builtin.copy>(slice(faddr<#0>(self), 0, none), "+rest+")", at)
 		r.Check(cp != nil, "C19.parse-exits.copies-payload", c.ipos(e.Instr), "address = zero value with hash[:] overwritten by the payload after the version byte: %s", short(at.String(), 200))
 	}
 	// index guard
@@ -177,7 +177,7 @@ func c19Parse(c *Ctx) {
 				continue
 			}
 			t := bb.Of(e.Results[0], e.Instr)
-			bd, ok := ana.Match("concat(slice(obj(alloc<[1]byte>, store(iaddr(self, 0), $v)), 0, none), slice(faddr<hash>(obj(alloc<*>, store(self, p0))), 0, none))", t)
+			bd, ok := ana.Match("concat(slice(obj(alloc<[1]byte>, store(iaddr(self, 0), $v)), 0, none), slice(faddr<#0>(obj(alloc<*>, store(self, p0))), 0, none))", t)
 			v, _ := bd["$v"].Int()
 			r.Check(ok && v == ty.ver, key+".bytes", c.ipos(e.Instr), "Bytes() = [%#x] ‖ hash[:] (whole array): %s", ty.ver, short(t.String(), 160))
 		}
